@@ -686,6 +686,20 @@ func (w *World) execUnOp(fr *Frame, st *State, ins *ssa.UnOp) {
 		if x.Loc == nil {
 			w.derefPoint(fr, st, x.T, "nil dereference", ins.Pos())
 		}
+		// a captured local that is assigned exactly once, outside every loop, before this load (the store
+		// dominates it) and never by a closure holds the value stored then, whatever was called in between
+		if a, ok := ins.X.(*ssa.Alloc); ok && a.Heap && fr.top {
+			if so := writeOnceStore(a); so != nil && so.Block() != nil && ins.Block() != nil &&
+				((so.Block() == ins.Block() && instrIndex(so) < instrIndex(ins)) || (so.Block() != ins.Block() && so.Block().Dominates(ins.Block()))) {
+				if sv, ok := fr.vals[so.Val]; ok && sv.T.S != "" {
+					fr.vals[ins] = sv
+					return
+				} else if c, isConst := so.Val.(*ssa.Const); isConst {
+					fr.vals[ins] = w.constVal(c)
+					return
+				}
+			}
+		}
 		v := w.loadPtr(st, x, ins.X.Type())
 		// recover static knowledge about function values
 		if fv, ok := w.closures[v.T.S]; ok && fv != nil {
@@ -823,6 +837,10 @@ func (w *World) execIndexAddr(fr *Frame, st *State, ins *ssa.IndexAddr) {
 	switch t := ins.X.Type().Underlying().(type) {
 	case *types.Slice:
 		if w.safetyFull(fr) {
+			if _, isConst := ins.Index.(*ssa.Const); !isConst {
+				// what the path knows about "every element" is needed at this element
+				w.instantiateIntFactsAt(i)
+			}
 			w.panicPoint(fr, st, or(lt(i, intLit(0)), le(slen(x.T), i)), "index out of range", ins.Pos())
 		}
 		fr.vals[ins] = &Val{Typ: ins.Type(), Loc: &Loc{kind: "elem", base: sarr(x.T), idx: add(soff(x.T), i), rootT: t.Elem()}}
@@ -1627,4 +1645,84 @@ func spilledParam(a *ssa.Alloc) *ssa.Parameter {
 	}
 	spilledParamCache[a] = param
 	return param
+}
+
+func instrIndex(ins ssa.Instruction) int {
+	for i, x := range ins.Block().Instrs {
+		if x == ins {
+			return i
+		}
+	}
+	return -1
+}
+
+var writeOnceCache = map[*ssa.Alloc]*ssa.Store{}
+var writeOnceDone = map[*ssa.Alloc]bool{}
+
+// writeOnceStore returns the only store to a heap-allocated (captured) local when that store is outside
+// every loop, the variable's address goes nowhere but into closures, and no closure assigns it.
+func writeOnceStore(a *ssa.Alloc) *ssa.Store {
+	if writeOnceDone[a] {
+		return writeOnceCache[a]
+	}
+	writeOnceDone[a] = true
+	refs := a.Referrers()
+	if refs == nil {
+		return nil
+	}
+	var store *ssa.Store
+	var readOnly func(v ssa.Value, refs []ssa.Instruction, depth int) bool
+	readOnly = func(v ssa.Value, refs []ssa.Instruction, depth int) bool {
+		if depth > 4 {
+			return false
+		}
+		for _, r := range refs {
+			switch x := r.(type) {
+			case *ssa.UnOp:
+				if x.Op != token.MUL {
+					return false
+				}
+			case *ssa.DebugRef:
+			case *ssa.Store:
+				if x.Addr != v || v != ssa.Value(a) || store != nil {
+					return false
+				}
+				store = x
+			case *ssa.MakeClosure:
+				fn, ok := x.Fn.(*ssa.Function)
+				if !ok {
+					return false
+				}
+				for i, b := range x.Bindings {
+					if b != v {
+						continue
+					}
+					if i >= len(fn.FreeVars) {
+						return false
+					}
+					fv := fn.FreeVars[i]
+					fr := fv.Referrers()
+					if fr == nil || !readOnly(fv, *fr, depth+1) {
+						return false
+					}
+				}
+			default:
+				return false
+			}
+		}
+		return true
+	}
+	if !readOnly(a, *refs, 0) || store == nil || store.Block() == nil {
+		return nil
+	}
+	li := analyzeLoops(a.Parent())
+	for _, body := range li.body {
+		for _, b := range body {
+			if b == store.Block() {
+				return nil
+			}
+		}
+	}
+	writeOnceCache[a] = store
+	return store
 }
